@@ -19,25 +19,25 @@ package fox
 //@   ensures result == nil || fresh(result)
 //@   loop 1: invariant params == nil || fresh(params)
 
-//@ func newNodeFromRef props C03,C02 partial
+//@ func newNodeFromRef props C03,C05,C02 partial
 //@   ensures result != nil && fresh(result) && same(result.key, key) && result.route == route && result.children == children && result.childKeys == childKeys && result.paramChildIndex == paramChildIndex && result.wildcardChildIndex == wildcardChildIndex
 
 //@ -- newNode sorts `children` in place: the caller must own that array (frame obligation at the call site)
-//@ func newNode props C03,C02 partial
+//@ func newNode props C03,C05,C02 partial
 //@   modifies elems(children)
 //@   ensures result != nil && fresh(result) && same(result.key, key) && result.route == route && result.children == children && len(result.childKeys) == len(children) && (len(children) > 0 ==> fresh(result.childKeys))
 
-//@ func (*node).clone props C03 partial
+//@ func (*node).clone props C03,C05 partial
 //@   requires n != nil
 //@   ensures result != nil && fresh(result) && same(result.key, n.key) && result.route == n.route && len(result.children) == len(n.children) && cap(result.children) == len(n.children) && (len(n.children) > 0 ==> fresh(result.children)) && result.childKeys == n.childKeys
 //@   ensures forall i int :: {result.children[i]} 0 <= i && i < len(n.children) ==> result.children[i] == n.children[i]
 
-//@ func (*node).getEdges props C03 partial
+//@ func (*node).getEdges props C03,C05 partial
 //@   requires n != nil
 //@   ensures len(result) == len(n.children) && cap(result) == len(result) && (len(result) > 0 ==> fresh(result))
 //@   ensures forall i int :: {result[i]} 0 <= i && i < len(n.children) ==> result[i] == n.children[i]
 
-//@ func recreateParentEdge props C03 partial
+//@ func recreateParentEdge props C03,C05 partial
 //@   requires safety-parent: parent != nil && len(parent.children) >= 1
 //@   ensures len(result) == len(parent.children) - 1 && cap(result) == len(result) && (len(result) > 0 ==> fresh(result))
 
@@ -51,7 +51,7 @@ package fox
 //@   ensures result != nil ==> exists i int :: 0 <= i && i < len(n.children) && result == n.children[i]
 
 //@ -- updateEdge overwrites one slot of n.children: n's children array must be owned by the writer
-//@ func (*node).updateEdge props C03 partial
+//@ func (*node).updateEdge props C03,C05 partial
 //@   requires safety-nil: n != nil && node != nil
 //@   requires safety-found: len(n.children) > 0
 //@   requires safety-sorted: len(n.children) > 50 ==> sortedBytes(n.childKeys)
@@ -84,20 +84,20 @@ package fox
 //@   loop 1: invariant forall j int :: {r[j]} verb <= j && j <= rangeindex + verb ==> r[j].key != method
 //@   loop 1: decreases len(r) - verb - rangeindex
 
-//@ func (*tXn).addRoot props C03,C02 partial
+//@ func (*tXn).addRoot props C03,C05,C02 partial
 //@   requires t != nil
 //@   modifies t.root
 //@   ensures fresh(t.root) && len(t.root) == old(len(t.root)) + 1
-//@ func (*tXn).updateRoot props C03,C02 partial
+//@ func (*tXn).updateRoot props C03,C05,C02 partial
 //@   requires t != nil && n != nil
 //@   modifies t.root
 //@   ensures t.root == old(t.root) || (fresh(t.root) && len(t.root) == old(len(t.root)))
-//@ func (*tXn).removeRoot props C03,C02 partial
+//@ func (*tXn).removeRoot props C03,C05,C02 partial
 //@   requires t != nil
 //@   modifies t.root
 //@   ensures t.root == old(t.root) || fresh(t.root)
 
-//@ func (*tXn).copyOnWriteSearch props C03,C02,C04 partial
+//@ func (*tXn).copyOnWriteSearch props C03,C05,C02,C04 partial
 //@   requires t != nil && cacheOK(t)
 //@   requires safety-root: rootNode != nil
 //@   modifies t.writable, t.root, cachedIn
@@ -132,7 +132,7 @@ package fox
 //@   ensures result != nil
 //@ extern isRemovable
 
-//@ func (*tXn).insert props C03,C02,C04,C01 partial
+//@ func (*tXn).insert props C03,C05,C02,C04,C01 partial
 //@   assert-at call newNodeFromRef#1 : same-edges: arg_children == result.matched.children && arg_childKeys == result.matched.childKeys && arg_paramChildIndex == result.matched.paramChildIndex && arg_wildcardChildIndex == result.matched.wildcardChildIndex && same(arg_key, result.matched.key) && arg_route == route
 //@   assert-at call newNodeFromRef#2 : same-edges: arg_children == result.matched.children && arg_childKeys == result.matched.childKeys && arg_paramChildIndex == result.matched.paramChildIndex && arg_wildcardChildIndex == result.matched.wildcardChildIndex && arg_route == result.matched.route
 //@   requires t != nil && route != nil && cacheOK(t)
@@ -141,7 +141,7 @@ package fox
 //@   ensures cache: cacheOK(t)
 //@   ensures size: (result == nil ==> t.size == old(t.size) + 1) && (result != nil ==> t.size == old(t.size))
 
-//@ func (*tXn).update props C03,C02,C04,C01 partial
+//@ func (*tXn).update props C03,C05,C02,C04,C01 partial
 //@   assert-at call newNodeFromRef#1 : same-edges: arg_children == result.matched.children && arg_childKeys == result.matched.childKeys && arg_paramChildIndex == result.matched.paramChildIndex && arg_wildcardChildIndex == result.matched.wildcardChildIndex && same(arg_key, result.matched.key) && arg_route == route
 //@   requires t != nil && route != nil && cacheOK(t)
 //@   modifies t.root, t.writable, cachedIn
@@ -149,7 +149,7 @@ package fox
 //@   ensures cache: cacheOK(t)
 //@   ensures size: t.size == old(t.size)
 
-//@ func (*tXn).remove props C03,C02,C04,C01 partial
+//@ func (*tXn).remove props C03,C05,C02,C04,C01 partial
 //@   assert-at call newNodeFromRef#1 : same-edges: arg_children == result.matched.children && arg_childKeys == result.matched.childKeys && arg_paramChildIndex == result.matched.paramChildIndex && arg_wildcardChildIndex == result.matched.wildcardChildIndex && same(arg_key, result.matched.key) && arg_route == nil
 //@   assert-at call newNodeFromRef#2 : merged-edges: arg_children == child.children && arg_childKeys == child.childKeys && arg_paramChildIndex == child.paramChildIndex && arg_wildcardChildIndex == child.wildcardChildIndex && arg_route == child.route
 //@   requires t != nil && cacheOK(t)
@@ -159,7 +159,7 @@ package fox
 //@   ensures size: result1 ==> t.size == old(t.size) - 1 && result0 != nil
 //@   ensures size-miss: !result1 ==> t.size == old(t.size) || t.size == old(t.size) - 1
 
-//@ func (*tXn).truncate props C03,C02,C04 partial
+//@ func (*tXn).truncate props C03,C05,C02,C04 partial
 //@   requires t != nil
 //@   modifies t.root, t.size
 //@   ensures all: len(methods) == 0 ==> t.size == 0 && fresh(t.root)
